@@ -43,9 +43,9 @@ ASSUMPTIONS = [
     'the property\'s domain for the specification oracle is lines whose command word is ASCII (the DBus specification '
     'makes the protocol ASCII); on other bytes cmd.decode() raises and the connection drops - modelled for every byte '
     '>= 0x80, compared with the model on bytes that are not valid UTF-8 (0xff, 0x80), not flagged as a violation',
-    'a line of exactly 16384 bytes is accepted when it arrives in one read but closes the connection when the read '
-    'ends between its \\r and \\n (the unfinished buffer is then 16385 bytes): modelled; the property only demands '
-    'closing for lines LONGER than 16 KiB, so neither behaviour is flagged',
+    'the line still being received at the end of a read closes the connection once it is longer than 16384 + 1 bytes '
+    '(it may end with the \\r of a maximal line; repair D32): compared with the model and with the specification, '
+    'including a 16384-byte line cut between \\r and \\n and unfinished remainders of 16384..16387 bytes',
     'scripted mechanisms answer from the script whatever the response is (outcomes are universally quantified); a '
     'script entry CONTINUE with a non-empty str challenge (ill-typed: hexlify raises) is compared with the model only',
     'concrete mechanisms: SO_PEERCRED is faked by setting protocol._unix_creds to (pid, uid, gid) of this process or None; '
@@ -60,9 +60,9 @@ ASSUMPTIONS = [
 
 GUID = b'0123456789abcdef0123456789abcdef'
 MAXLINE = 16384
-# the model describes the tree with D09, D10a, D10b, D11 repaired; VERIF_C06_FIXES=0000 compares the
+# the model describes the tree with D09, D10a, D10b, D11, D32 repaired; VERIF_C06_FIXES=00000 compares the
 # legacy model with a tree that lacks them (development aid: shows the _legacy definitions are faithful too)
-FIX = [int(c) for c in os.environ.get('VERIF_C06_FIXES', '1111')]
+FIX = [int(c) for c in os.environ.get('VERIF_C06_FIXES', '11111')]
 
 A, B = b'EXTERNAL', b'ANONYMOUS'     # names given to the two scripted mechanisms
 ALPHABET = [
@@ -208,8 +208,6 @@ def in_domain(case_reads, script):
     for l in fields:
         cmd = l.split(b' ', 1)[0]
         if any(c >= 0x80 for c in cmd):
-            return False
-        if len(l) == MAXLINE:
             return False
     return True
 
@@ -711,6 +709,11 @@ def gen_framing(ctx):
                 cut = stream.index(long_line) + len(long_line)
                 for c in (cut - 1, cut, cut + 1, cut + 2):
                     yield ['o', [A, B], [[0], [0]], [stream[:c], stream[c:]]]
+                # unfinished remainders around the bound, with and without the pending \\r
+                for tail in (b'', b'\r', b'x'):
+                    yield ['o', [A, B], [[0], [0]], [b'\0' + b''.join(l + b'\r\n' for l in prefix) + long_line + tail]]
+                    yield ['o', [A, B], [[0], [0]], [b'\0' + b''.join(l + b'\r\n' for l in prefix) + long_line + tail,
+                                                     b'\nAUTH\r\n']]
                 # never terminated: only the buffer check can close
                 yield ['o', [A, B], [[0], [0]], [b'\0' + long_line[:5000], long_line[5000:], b'\r\nAUTH\r\n']]
     # reads after the connection was closed must be ignored
